@@ -454,8 +454,10 @@ async fn ns_noninterference(log: &mut Log, st: &mut Stats, rng: &mut Rng) {
         show_u64s(&v)
     };
     log.rec(format!("ni begin {this} {peer} n={n} spoof_at={spoof_at}"), "ok");
+    let mut nonces: Vec<u64> = Vec::new();
     for i in 0..n {
         let nonce = *rng.pick(&[0u64, 0, 4, 4, 9]);
+        nonces.push(nonce);
         p1.register(ids1[i], peer, nonce);
         p2.register(ids2[i], peer, nonce);
         log.rec(format!("ni checkc {i}"), format!("{} | {}", p1.check_candidate(ids1[i]), p2.check_candidate(ids2[i])));
@@ -476,6 +478,13 @@ async fn ns_noninterference(log: &mut Log, st: &mut Stats, rng: &mut Rng) {
         for j in 0..n {
             log.rec(format!("ni elected {j}"), format!("{} | {}", p1.is_elected(ids1[j]), p2.is_elected(ids2[j])));
             log.rec(format!("ni checkc {j}"), format!("{} | {}", p1.check_candidate(ids1[j]), p2.check_candidate(ids2[j])));
+            // what the SESSIONS call (`CheckSession` with their own name + nonce): a spoofer sharing
+            // (name, nonce) makes the query ambiguous -> the reply may change, but only to `noOther`
+            let (c1, c2) = (p1.check_session(peer, nonces[j]), p2.check_session(peer, nonces[j]));
+            if c1 != c2 {
+                st.bump("ni_checks_flipped_by_spoofer");
+            }
+            log.rec(format!("ni checks {j}"), format!("{c1} | {c2}"));
         }
     }
     p1.shutdown();
